@@ -683,10 +683,12 @@ func (v *Protocol) readBasicHeader() (format formatType, cid chunkID, err error)
 	if err = binary.Read(v.r, binary.BigEndian, &t); err != nil {
 		return format, cid, oe.Wrapf(err, "read basic header for cid=%v", cid)
 	}
+	// The first byte is 0 for 2B chunk header, 1 for 3B chunk header.
+	form := cid
 	cid = chunkID(64 + uint32(t))
 
 	// 64-65599, 3B chunk header
-	if cid == 1 {
+	if form == 1 {
 		if err = binary.Read(v.r, binary.BigEndian, &t); err != nil {
 			return format, cid, oe.Wrapf(err, "read basic header for cid=%v", cid)
 		}
